@@ -535,6 +535,22 @@ def diff_terms(a, b):
     return dis, side
 
 
+def diff_polys(a, b):
+    """canonical difference polynomials (re, im) of a - b over the common monomial, or None when a side is not canonical"""
+    a = Q.lift(a)
+    b = Q.lift(b)
+    cm = Q.common(a, b)
+    ca = a.expand_to(cm)
+    cb = b.expand_to(cm)
+    out = []
+    for x, y in zip(ca, cb):
+        if z3.is_expr(x) or z3.is_expr(y):
+            return None
+        d = rsub(x, y)
+        out.append(d)
+    return out
+
+
 def recognize(q, timeout_ms=20000):
     """rewrite q's coefficient as a registered atom if the solver proves them equal
     (so that a later division by that atom cancels instead of being multiplied out)."""
@@ -808,9 +824,17 @@ def opaque_fn(name, args, is_real, semantic=None):
                 ATOMS.stats["merged"] += 1
                 _OPAQUE[key] = val
                 return val
+    holo_dep = any(_uses_holo(a) for a in args)
+    if holo_dep:
+        is_real = False  # a function of a holomorphic indeterminate is itself one: conj / real / abs of it stay guarded
     k = ATOMS.opaque(name, is_real=is_real)
     out = Q(1, {k: 1})
     re, im = ATOMS.sym[k]
+    if holo_dep:
+        from .poly import VARS as _PV
+        for x in (re, im):
+            if isp(x):
+                HOLO.update(x.variables())
     re = tz(re)
     facts = []
     a0 = args[0] if args else None
